@@ -99,7 +99,16 @@ func validateUnconnectedProcessors(flow *FlowDirection) error {
 
 // detectCircularConnections detects circular connections in the flow graph.
 func detectCircularConnections(flowDir *FlowDirection) error {
-	if flowDir.GetFlowType().IsResponseType() && !flowDir.HasValidRoot() {
+	if flowDir.GetFlowType().IsResponseType() {
+		// A response walk also starts at the node of a processor that answered the request
+		// itself, whether or not the direction has a root: every node is an entry point.
+		for _, node := range flowDir.nodes {
+			visitedByCondition := make(map[string]map[string]bool)
+			if !dfsDetectCycles(node, visitedByCondition, node.processorKey, "") {
+				return fmt.Errorf(
+					"circular connection detected - processor '%s'", node.processorKey)
+			}
+		}
 		return nil
 	}
 
